@@ -249,15 +249,43 @@ def g13_qualified(ctx, g, prefix):
         ctx.check("::" in g.vocab(g.expr("macro_name")), prefix, "G13|path-sep", "G13: macro_name admits `::` (qualified paths)", W)
 
 
+def statement_shape(g):
+    """token shape of a whole statement: log_macro's sequence with macro_args spliced in, so the verdict does
+    not depend on which of the two rules holds the opening bracket"""
+    out = []
+    for p in flatten(g.rules["log_macro"]["expr"], "seq"):
+        if p["k"] == "ident" and p["v"] == "macro_args":
+            out.extend(_macro_args_shape(g))
+        elif p["k"] == "ident":
+            out.append(("rule", p["v"]))
+        elif p["k"] == "str":
+            out.append(("str", p["v"]))
+        elif p["k"] == "opt" and p["e"]["k"] == "ident":
+            out.append(("opt", p["e"]["v"]))
+        else:
+            out.append(("other", p["k"]))
+    return out
+
+
+def args_leading_literals(g):
+    """the literal tokens macro_args itself starts with (`(` today): the finder's byte shift from the start of
+    the macro_args span to the first argument must equal their total length"""
+    lead = []
+    for kind, v in _macro_args_shape(g):
+        if kind != "str":
+            break
+        lead.append(v)
+    return lead
+
+
 def g14_order(ctx, g, prefix):
     if not need(ctx, g, prefix, ["macro_args", "log_macro"]):
         return
-    d = _macro_args_shape(g)
-    want = [("str", "("), ("opt", target_rule(g) or "target_arg"), ("opt", "kvp_args"), ("rule", "string_literal")]
-    ctx.check(d == want, prefix, "G14|order", "G14: macro_args = `(` target? key-values? literal (%s)" % d, W)
-    lm = g.seq_of("log_macro")
-    shape = [(p["k"], p.get("v")) for p in lm]
-    ctx.check(shape == [("ident", "macro_name"), ("str", "!"), ("ident", "macro_args")], prefix, "G14|log_macro", "G14: log_macro = macro_name `!` macro_args (%s)" % shape, W)
+    d = statement_shape(g)
+    want = [("rule", "macro_name"), ("str", "!"), ("str", "("), ("opt", target_rule(g) or "target_arg"), ("opt", "kvp_args"), ("rule", "string_literal")]
+    ctx.check(d == want, prefix, "G14|order", "G14: a statement is macro_name `!` `(` target? key-values? literal (%s)" % d, W)
+    lm = [(p["k"], p.get("v")) for p in flatten(g.rules["log_macro"]["expr"], "seq")]
+    ctx.check(lm[:1] == [("ident", "macro_name")] and ("ident", "macro_args") in lm, prefix, "G14|log_macro", "G14: log_macro holds the macro_name and macro_args pairs (%s)" % lm, W)
 
 
 def g15_kvp_args(ctx, g, prefix):
@@ -292,3 +320,58 @@ def scan_alignment(ctx, g, prefix):
     parts = g.seq_of("file")
     ok = len(parts) == 3 and parts[0] == {"k": "ident", "v": "SOI"} and parts[2] == {"k": "ident", "v": "EOI"} and parts[1]["k"] == "rep"
     ctx.check(ok, prefix, "file-shape", "file = SOI (…)* EOI", W)
+
+
+def _contexts(g, root="file"):
+    """rule -> set of atomicities ('A' atomic / 'N' non-atomic) it can be entered with, following pest:
+    `@`/`$` rules run atomically and cascade to what they call, `!` rules switch back, `{}` and `_{}` inherit"""
+    ctx_of = {}
+    st = [(root, "N")]
+    while st:
+        name, inh = st.pop()
+        if name not in g.rules:
+            continue
+        ty = g.ty(name)
+        cur = "A" if ty in ("atomic", "compound_atomic") else "N" if ty == "non_atomic" else inh
+        if cur in ctx_of.setdefault(name, set()):
+            continue
+        ctx_of[name].add(cur)
+        for i in g.idents(g.expr(name)):
+            if i in g.rules:
+                st.append((i, cur))
+    return ctx_of
+
+
+def _until_reps(e, out):
+    """collect `(!X ~ ANY)*`-shaped repetitions (consume anything until X)"""
+    k = e["k"]
+    if k in ("rep", "rep1", "repn"):
+        parts = flatten(e["e"], "seq")
+        if len(parts) >= 2 and parts[0]["k"] == "neg" and parts[-1]["k"] == "ident" and parts[-1]["v"] == "ANY":
+            out.append(parts[0]["e"])
+    for key in ("a", "b", "e"):
+        if key in e and isinstance(e[key], dict):
+            _until_reps(e[key], out)
+
+
+def g16_strings_atomic(ctx, g, prefix):
+    """the body of every string literal reachable from `file` is matched atomically: in a non-atomic
+    context pest skips COMMENT between the characters, so `//` or `/*` inside the string would swallow the
+    closing quote and the rest of the statement"""
+    if not need(ctx, g, prefix, ["file"]):
+        return
+    cx = _contexts(g)
+    bodies = []
+    bad = []
+    for name, how in sorted(cx.items()):
+        reps = []
+        _until_reps(g.expr(name), reps)
+        for stop in reps:
+            if "\"" in g.vocab(stop):
+                bodies.append(name)
+                if "N" in how:
+                    bad.append(name)
+    ctx.check(len(bodies) >= 1, prefix, "G16|string-body-anchor", "G16: string-literal bodies found in rules reachable from `file` (%s)" % sorted(set(bodies)), W)
+    ctx.check(not bad, prefix, "G16|strings-atomic",
+              "G16: every string-literal body reachable from `file` is matched atomically, so comment openers inside a string are text (non-atomic: %s)"
+              % (sorted(set(bad)) or "none"), W)
